@@ -352,17 +352,35 @@ def gen_formula_case(rng):
                 vr=rng.choice([1.0, 1.0, rng.uniform(0.8, 1.25)]), Rrel=10 ** rng.uniform(-0.7, 0.7), Rprev=10 ** rng.uniform(-9.5, -8))
 
 
+_MODELS = {}
+
+
 def real_prec(c):
+    global _MODELS
     NR, PP, KE, SF, MT = _kawin()
-    p = PP.PrecipitateParameters('P')
-    if c['shape'] != 'sphere':
-        p.shapeFactor.setPrecipitateShape(c['shape'], c['ar'])
-    p.strainEnergy.setConstantElasticEnergy(c['E'])
+    if 'prec' not in _MODELS:
+        # constructing PrecipitateParameters / selecting the constant strain energy loads the Lebedev tables (40 ms):
+        # one real object is reused, later cases only change the value of the constant energy
+        _MODELS['prec'] = PP.PrecipitateParameters('P')
+        _MODELS['prec'].strainEnergy.setConstantElasticEnergy(0.0)
+    p = _MODELS['prec']
+    p.shapeFactor.setPrecipitateShape(c['shape'], c['ar'])
+    p.strainEnergy.params.constantEnergy = c['E']
     p.nucleation.setNucleationType(c['site'])
     p.gamma = c['gamma']
     p.volume.Vm = c['Vm']
     p.Rmin = c['Rmin']
     return p
+
+
+def _model(kind):
+    """a real PrecipitateModel object without thermodynamics (reused between cases: only parameters are swapped)"""
+    if kind not in _MODELS:
+        NR, PP, KE, SF, MT = _kawin()
+        with warnings.catch_warnings():
+            warnings.simplefilter('ignore')
+            _MODELS[kind] = KE.PrecipitateModel(phases=['P'], elements=['A', 'B'] if kind == 'multi' else ['B'])
+    return _MODELS[kind]
 
 
 def eval_formula_case(c):
@@ -396,9 +414,7 @@ def eval_formula_case(c):
     go = MT._growthRateOutputFromCurvature(np.array([0.08, 0.1]), c['dG'], R, np.array(o['gExtra']), curv)
     o['growthMulti'] = np.atleast_1d(go.growth_rate).astype(float).tolist()
     # KWN glue on a real model object (thermodynamics replaced by the real growth law with a fixed curvature output)
-    with warnings.catch_warnings():
-        warnings.simplefilter('ignore')
-        m = KE.PrecipitateModel(phases=['P'], elements=['A', 'B'])
+    m = _model('multi')
     m.precipitateParameters[0] = p
     m.PBM[0].PSDbounds = R.copy(); m.PBM[0].bins = len(R) - 1
     m.removeCache = False
@@ -417,9 +433,7 @@ def eval_formula_case(c):
     o['growthKWN'] = np.atleast_1d(gk).astype(float).tolist()
     o['dG_handed'] = seen.get('dG')
     # binary growth law on a real model object
-    with warnings.catch_warnings():
-        warnings.simplefilter('ignore')
-        mb = KE.PrecipitateModel(phases=['P'], elements=['B'])
+    mb = _model('binary')
     mb.precipitateParameters[0] = p
     mb.matrixParameters.volume.Vm = c['Vm'] * c['vr']
     mb.PBM[0].PSDbounds = R.copy(); mb.PBM[0].bins = len(R) - 1
@@ -646,7 +660,7 @@ def part_scan(ctx, res):
     c_idx = 0 if th.reverse else 1
     items = []       # (tag, desc, n, fields, impl_xa, impl_xb, g or None)
     # ---------------- (a) real pycalphad records
-    nreal = ctx.n(9, 60)
+    nreal = ctx.n(12, 80)
     with _Recorder(BinTherm) as rec:
         for k in range(nreal):
             kind, g = gen_g_array(ctx.rng, ctx.n(24, 90))
@@ -814,7 +828,7 @@ def df(th, method, x, T):
 
 def part_thermo(ctx, res, th, system, prec, Ts, stoich=True):
     vlib.use_repo()
-    tol_off = OFFSET * (1 + 1e-6) + 1e-6
+    tol_off = OFFSET + 1e-3          # the documented offset plus the resolution of the sampling method
     for T in Ts:
         gmax = ctx.rng.uniform(9000, 16000)
         g = np.concatenate(([0.0], np.sort([ctx.rng.uniform(0, 1) ** 2 * gmax for _ in range(ctx.n(6, 12))])))
@@ -832,11 +846,13 @@ def part_thermo(ctx, res, th, system, prec, Ts, stoich=True):
             if prevx is not None and not xi > prevx[1] and gi > prevx[0] * (1 + 1e-9) + 1e-6:
                 res.violate('xalpha-not-increasing-in-g', 'interfacial matrix composition does not rise with g', dict(desc0, g_pair=[prevx[0], gi]), [prevx[1], xi])
             prevx = (gi, xi)
-            for mth in (['tangent', 'sampling', 'approximate'] if stoich else ['tangent', 'sampling']):
+            # for a precipitate with a composition range only the parallel-tangent method is exact: sampling is limited by
+            # its resolution (Cu4Ti: up to -12 J/mol) and 'approximate' assumes the equilibrium precipitate composition
+            for mth in (['tangent', 'sampling', 'approximate'] if stoich else ['tangent']):
                 d = df(th, mth, xi, T)
                 res.case(('thermo', system, round(T, 3), round(gi, 6), mth), gi > 0)
                 res.count('thermo:DF(xalpha(g))=g:' + mth)
-                tol = tol_off + 1e-6 * abs(gi) if stoich else tol_off + 2e-3 * abs(gi) + 0.5
+                tol = tol_off + 1e-6 * abs(gi)
                 if d is None or abs(d - gi) > tol:
                     res.violate('df-at-xalpha-differs-from-g:' + mth, 'driving force at the interfacial matrix composition returned for g is not g within the 1 J/mol offset',
                                 dict(desc0, g=gi, xalpha=xi, method=mth), d, '%g +- %g' % (gi, tol))
@@ -868,7 +884,9 @@ def part_thermo(ctx, res, th, system, prec, Ts, stoich=True):
                 for mth in ('sampling', 'approximate'):
                     if abs(v[mth] - ref) > tol_off + 1e-6 * abs(ref):
                         res.violate('df-methods-value:' + mth, 'driving-force methods differ by more than the offset for the stoichiometric precipitate', desc, v, 'within %g of tangent' % tol_off)
-                dev = abs(v['curvature'] - ref)
+                # tangent/approximate return the value with or without the offset depending on the cached composition sets:
+                # compare the curvature method with the nearest of the three
+                dev = min(abs(v['curvature'] - v[mth]) for mth in ('tangent', 'sampling', 'approximate'))
                 if dev > tol_off + 1e-6 * abs(ref):
                     if r > 1.02:
                         # first-order (small supersaturation) expansion by construction: recorded finding
@@ -912,7 +930,7 @@ def make_observer(res, tag, desc, stats):
                 i = (ba or bb)[0]
                 res.violate('run-%s-class-%s' % (tag, 'above-Rcrit-shrinks' if ba else 'below-Rcrit-grows'),
                             'at an observer callback of a real run a size class %s pData.Rcrit %s' % (('larger than', 'does not grow') if ba else ('smaller than', 'does not shrink')),
-                            dict(desc, step=int(n), time=float(m.pData.time[n]), phase=str(m.phases[p]), Rcrit=Rc, drivingForce=dG, R=float(b[i]), class_index=i,
+                            dict(desc, step=int(n), time_at_step=float(m.pData.time[n]), phase=str(m.phases[p]), Rcrit=Rc, drivingForce=dG, R=float(b[i]), class_index=i,
                                  RdrivingForceIndex=int(m.RdrivingForceIndex[p])), float(g[i]), 'growth %s 0' % ('>' if ba else '<'))
     return obs
 
@@ -944,9 +962,9 @@ def run_case(ctx, res, cfg):
 
 def part_runs(ctx, res):
     r = ctx.rng
-    cfgs = [dict(kind='binary', x0=4e-3, T=723.15, gamma=0.1, time=3600 * 5, steps=ctx.n(300, 1800)),
-            dict(kind='ternary', x0=(0.098, 0.083), T=1073.0, gamma=0.023, time=1e4, steps=ctx.n(25, 250))]
-    cfgs.append(dict(kind='ternary', x0=(0.098, 0.083), T=1073.0, gamma=0.023, time=1e4, steps=ctx.n(8, 80), E=10 ** r.uniform(6.3, 7.3)))
+    cfgs = [dict(kind='binary', x0=4e-3, T=723.15, gamma=0.1, time=3600 * 5, steps=ctx.n(500, 1800)),
+            dict(kind='ternary', x0=(0.098, 0.083), T=1073.0, gamma=0.023, time=1e4, steps=ctx.n(40, 250))]
+    cfgs.append(dict(kind='ternary', x0=(0.098, 0.083), T=1073.0, gamma=0.023, time=1e4, steps=ctx.n(12, 80), E=10 ** r.uniform(6.3, 7.3)))
     if ctx.thorough:
         for _ in range(3):
             cfgs.append(dict(kind='binary', x0=10 ** r.uniform(-2.7, -2.2), T=r.uniform(650, 760), gamma=r.uniform(0.07, 0.14), time=3600 * 3, steps=600,
@@ -969,10 +987,10 @@ def corr(ctx):
                 '(3) monitored thermodynamic grid over T, g, x (Al-Zr, all four driving-force methods). (4) observer callbacks of real Al-Zr and Ni-Cr-Al runs. distinct = parameter tuple / (T, g, method) / run configuration')
     res.monitored = list(MONITORED)
     import kwnruns
-    part_formulas(ctx, res, ctx.n(250, 6000))
+    part_formulas(ctx, res, ctx.n(800, 20000))
     part_scan(ctx, res)
     th = kwnruns.therm_binary()
-    Ts = [ctx.rng.uniform(580, 880) for _ in range(ctx.n(3, 14))]
+    Ts = [ctx.rng.uniform(580, 880) for _ in range(ctx.n(8, 40))]
     part_thermo(ctx, res, th, 'Al-Zr', 'AL3ZR', Ts)
     if ctx.thorough:
         cu = therm_cuti()
